@@ -882,7 +882,7 @@ impl<'p> Interp<'p> {
 }
 
 /// Model tag of the `LogConfig` (presence only).
-pub const TAG_LOGCFG: u8 = 8;
+pub const TAG_LOGCFG: u8 = 14;
 
 // ---------------------------------------------------------------------------------------------
 // executing the real configuration
